@@ -67,9 +67,17 @@ package optracker
 
 // "at most one current operation per CID": the table is a map; an ongoing operation of the
 // same type is kept (nil returned, table unchanged), anything else is cancelled and replaced.
+// an operation lives as long as the TRACKER, not as long as the request that asked for it: its context hangs off the
+// tracker's context (only the tracing span comes from the caller's), so that nothing but an opposite instruction or
+// the tracker's shutdown cancels it
+//@ extern trace.NewContext(parent, s)
+//@   ensures res == uf("ctxWithSpanUnder", "context.Context", parent)
+//@ extern trace.StartSpan(ctx, name, o)
+//@   ensures res1 == uf("spanContextOf", "context.Context", ctx)
 //@ func (opt *OperationTracker) TrackNewOperation
 //@   property C05 C18
 //@   opts own
+//@   at_call NewOperation assert [operation-context-hangs-off-the-trackers] arg_ctx == uf("spanContextOf", "context.Context", uf("ctxWithSpanUnder", "context.Context", opt.ctx))
 //@   requires tableInv(opt) && pin != nil
 //@   ensures [table-invariant] tableInv(opt)
 //@   ensures [dedupe] haskey(old(opt.operations), pin.Cid) && old(opt.operations[pin.Cid].opType) == typ && ongoing(old(opt.operations[pin.Cid].phase)) ==> res == nil && opt.operations == old(opt.operations)
